@@ -4,6 +4,8 @@ import Proofs.C20Lemmas
 import Proofs.C20Sess
 import Model.TlsAuthDial
 import Proofs.C20Dial
+import Model.TlsAuthHist
+import Proofs.C20Hist
 /-!
 # C20 — TLS verification and credential disclosure are exactly as documented (property theorems)
 
@@ -883,6 +885,79 @@ example : handshake (some (.pw ⟨[97], [49], []⟩))
       [.supported, .authenticate (strBytes "org.apache.cassandra.auth.PasswordAuthenticator"), .authSuccess []] ≠
     handshake (some (.pw ⟨[98], [50], []⟩))
       [.supported, .authenticate (strBytes "org.apache.cassandra.auth.PasswordAuthenticator"), .authSuccess []] := by decide
+
+
+/-! ## histories in one process: sessions over time, tokens held across further Challenge calls -/
+
+/-- one session: the verdict of the derived config is the property's demand on the option values it was derived from -/
+theorem verdict_setup (o : SslOpts) : verdictOf (setupTLSConfig o) = Spec.sessionVerdict o := by
+  obtain ⟨cfg, ehv, ca, cert, key⟩ := o
+  rcases cfg with _ | ⟨i, sn, r, n⟩ <;> cases ehv <;> (try cases i) <;> cases ca <;> cases cert <;> cases key <;>
+    simp [verdictOf, setupTLSConfig, keyPairLoads, Spec.sessionVerdict, Spec.mustVerify, Spec.documented, Spec.docRows]
+
+/-- HISTORY INDEPENDENCE.  For every sequence of sessions created in one process and every way the option values
+    change in between (the same caller tls.Config with InsecureSkipVerify / ServerName flipped back and forth, the
+    same paths with files rewritten, removed, repaired, EnableHostVerification toggled): the dial config of the k-th
+    session is `setupTLSConfig` of the values AT THAT MOMENT — a function of the current values only — and so its
+    verdict is the property's demand on those values: bad files are an error every time they are bad, otherwise the
+    documented table decides every time.  (This makes the op `tlshist` spec-backed.) -/
+theorem C20_config_history_independent (os : List SslOpts) :
+    histRun deriveCode () os = os.map setupTLSConfig ∧
+    (histRun deriveCode () os).map verdictOf = os.map Spec.sessionVerdict := by
+  have h := histRun_stateless deriveCode setupTLSConfig (fun _ _ => rfl) () os
+  refine ⟨h, ?_⟩
+  rw [h, List.map_map]
+  exact List.map_congr_left (fun o _ => verdict_setup o)
+
+/-- COUNTEREXAMPLE for the cached variant (`deriveCached`: the config derived the first time "the same options" —
+    same Config object, same paths, same EnableHostVerification — are seen is kept): the caller's Config is
+    InsecureSkipVerify=true for the first session and false for the second → the second session still does not
+    verify; a CA file that is valid for the first session and unreadable for the second is not reported.  The code
+    that exists gives the demanded verdicts on the same histories. -/
+theorem C20_cex_cached_config :
+    let o1 : SslOpts := ⟨some ⟨true, [], false, 0⟩, false, .absent, .absent, .absent⟩
+    let o2 : SslOpts := ⟨some ⟨false, [], false, 0⟩, false, .absent, .absent, .absent⟩
+    let c1 : SslOpts := ⟨none, true, .valid, .absent, .absent⟩
+    let c2 : SslOpts := ⟨none, true, .unreadable, .absent, .absent⟩
+    (histRun deriveCached [] [o1, o2]).map verdictOf = [.noverify, .noverify] ∧
+    (histRun deriveCode () [o1, o2]).map verdictOf = [.noverify, .verify] ∧
+    [Spec.sessionVerdict o1, Spec.sessionVerdict o2] = [.noverify, .verify] ∧
+    (histRun deriveCached [] [c1, c2]).map verdictOf = [.verify, .verify] ∧
+    (histRun deriveCode () [c1, c2]).map verdictOf = [.verify, .error] := by decide
+
+/-- RETURNED-BUFFER INDEPENDENCE.  For every sequence of `Challenge` calls on any password authenticators (any
+    credentials, allow-lists, class names — several connections, several hosts, interleaved in any order), with every
+    caller still holding the slice it was returned: what each caller reads in its token AFTER all the calls is the
+    PLAIN token of ITS OWN authenticator (or nothing, if that call was refused) — no later call touches an earlier
+    caller's bytes.  Together with C20_credentials_per_host: the AUTH_RESPONSE body built from a held token is the
+    own host's token however many other handshakes ran in between.  (Makes `tokalias` / `tokpar` spec-backed.) -/
+theorem C20_tokens_not_aliased (cs : List ChalCall) :
+    held (chalRun placeCode [] [] cs) = cs.map (fun c => challenge c.1 c.2) ∧
+    (∀ i (hi : i < cs.length) (hj : i < (held (chalRun placeCode [] [] cs)).length) t,
+      (held (chalRun placeCode [] [] cs))[i] = some t →
+        approve cs[i].2 cs[i].1.allowed = true ∧ t = plainToken cs[i].1.user cs[i].1.pass) := by
+  have h := chalRun_fresh cs [] [] (by intro w hw; cases hw)
+  simp only [held, List.map_nil, List.nil_append] at h
+  have h' : held (chalRun placeCode [] [] cs) = cs.map (fun c => challenge c.1 c.2) := h
+  refine ⟨h', ?_⟩
+  intro i hi hj t ht
+  simp only [h', List.getElem_map] at ht
+  unfold challenge at ht
+  split at ht
+  · rename_i ha; cases ht; exact ⟨ha, rfl⟩
+  · cases ht
+
+/-- COUNTEREXAMPLE for the pooled variant (`placePooled`: one scratch buffer re-used by every call while the
+    returned slices still point into it): alice's Challenge, then bob's; alice's caller now reads BOB's bytes
+    (cut to the length of her token) — what would go into the AUTH_RESPONSE for alice's node. -/
+theorem C20_cex_pooled_token :
+    let alice : PwAuth := ⟨[97, 108], [49, 49], []⟩
+    let bob : PwAuth := ⟨[98, 111], [50, 50], []⟩
+    let cls := strBytes "org.apache.cassandra.auth.PasswordAuthenticator"
+    held (chalRun placePooled [] [] [(alice, cls), (bob, cls)]) =
+      [some [0, 98, 111, 0, 50, 50], some [0, 98, 111, 0, 50, 50]] ∧
+    held (chalRun placeCode [] [] [(alice, cls), (bob, cls)]) =
+      [some [0, 97, 108, 0, 49, 49], some [0, 98, 111, 0, 50, 50]] := by decide
 
 
 end C20
